@@ -341,6 +341,16 @@ fn contract_eq_bounded(
         {
             true
         }
+        // The original expression of a revertible thunk with dependencies has free variables
+        // standing for the fields of a recursive record, which aren't bound in its original
+        // environment. Looking them up there could find an unrelated outer binding with the same
+        // name instead, and equate two different contracts: we don't try to compare those thunks
+        // structurally.
+        (ValueContentRef::Thunk(thunk), _) | (_, ValueContentRef::Thunk(thunk))
+            if !thunk.deps().is_empty() =>
+        {
+            false
+        }
         (ValueContentRef::Thunk(thunk1), ValueContentRef::Thunk(thunk2)) => {
             // We consider unwrapping two thunks as only one operation using one unit of gas. This
             // is arbitrary but unimportant.
